@@ -1007,7 +1007,8 @@ func (s *Entry) collectArgs(ctx context.Context, kvps *Attrs, roughSize int, lvl
 	if s.ctxKeysWanted() {
 		s.fromCtx(ctx, kvps)
 	}
-	if len(s.attrs) > 0 {
+	if len(s.attrs) > 0 || IsAnyBitsSet(LattrsR) {
+		// a logger without attributes of its own still inherits its ancestors'
 		s.walkParentAttrs(ctx, lvl, s, kvps)
 	}
 	if len(args) > 0 {
